@@ -10,10 +10,11 @@ THEOREMS = ["held_not_closed", "idle_closed_at", "idle_run_closed_at", "poll_set
             "inbound_negotiation_holds_connection",
             "half_closed_substream_holds_connection"]
 CONSTS = ["KEEP_ALIVE_TIMEOUT_SECS"]
+from . import node as node_area  # noqa: E402
 CONST_TABLE = [
     ("KEEP_ALIVE_TIMEOUT_SECS", "src/transport/mod.rs",
      r"pub\(crate\) const KEEP_ALIVE_TIMEOUT: Duration = Duration::from_secs\(([^)]+)\);", 5),
-]
+] + [r for r in node_area.CONST_TABLE if r[0] != "KEEP_ALIVE_TIMEOUT_SECS"]
 MANIFEST = {
     "text": "Lean 4 theorems about an operational model of the keep-alive mechanism (ConnectionHandle Active/Inactive, "
             "Permit, KeepAliveTracker with lazily started timers, the multiset of strong senders of a connection's command "
